@@ -13,7 +13,7 @@ From stdpp Require Import gmap numbers list.
 From Coq Require Import ZArith.
 Require Import Model.Bytes Model.Bank Model.Hashes Model.Merkle Model.System.
 Require Model.L1 Model.L2.
-Require Import Proofs.C04Proofs Proofs.C08Proofs Proofs.C08Drain.
+Require Import Proofs.MerkleProofs Proofs.C03Binding Proofs.C04Proofs Proofs.C08Proofs Proofs.C08Drain.
 
 (* After ANY system history from fresh states, for every L1 denom d with L2 denom
    d' = l2_denom bridge d:
@@ -50,8 +50,8 @@ Proof. exact c08_unpaid_funded. Qed.
    final at the step's block time, is ACCEPTED - provided its leaf is not yet marked claimed
    and the L2 supply of its denom is not negative - or a denom collision is exhibited.  By
    C08_invariant_step the state after the claim satisfies the equation again, with m paid.
-   MISSING for the full C08_drain: (i) "leaf not marked claimed" follows from "m unpaid" only up
-   to a leaf-hash collision (C03 leaf binding); (ii) supply >= 0 (C09); (iii) the schedule
+   MISSING for the full C08_drain: (i) the "leaf not marked claimed" premise - removed by
+   C08_drain_claim_binding_partial below; (ii) supply >= 0 (C09); (iii) the schedule
    bookkeeping (relay all, propose, wait, claim all; then escrow = supply + donations and the
    conservation of combined holdings) - checked by the C08 stream's forced drain. *)
 Theorem C08_drain_claim_partial : ∀ (c : scfg) (s0 : sys) (h : list smsg) (e : L1.env) (sender : bytes)
@@ -68,7 +68,28 @@ Theorem C08_drain_claim_partial : ∀ (c : scfg) (s0 : sys) (h : list smsg) (e :
   (sys_step c s (SClaim e sender idx m lo hi v bh)).2 = true ∨ denom_collision c.
 Proof. exact c08_drain_claim. Qed.
 
+(* Drain, part 2 without the "leaf not marked claimed" premise: using the C03 leaf binding and
+   the invariant "every claimed leaf of the bridge is the leaf of a PAID recorded withdrawal",
+   an UNPAID recorded withdrawal (positive amount, L1-valid recipient, covered by an honest
+   final output) is accepted when claimed - or a denom collision, or an explicit collision of
+   the hash function, is exhibited.  Counters are assumed not to wrap (bridge id and next L2
+   sequence below 2^64, DESIGN section 8); the supply premise is C09's ledger. *)
+Theorem C08_drain_claim_binding_partial : ∀ (c : scfg) (s0 : sys) (h : list smsg) (e : L1.env) (sender : bytes)
+    (idx m lo hi v : N) (bh : bytes) (w : L2.wrec) (x : L1.config) (o : L1.output) (rcv : N),
+  fresh c s0 → L2.resolve (c2 c) [] = None → (∀ y, length (L1.hash (c1 c) y) = 32%nat) →
+  let s := sys_run c s0 h in
+  (bid c < 18446744073709551616)%N → (L2.next_l2 (l2 s) ≤ 18446744073709551616)%N →
+  (0 ≤ gets (L2.bk (l2 s)) (L2.w_denom w))%Z →
+  find_w (l2 s) m = Some w → m ∉ paid s → (lo < m ≤ hi)%N →
+  (0 < L2.w_amt w)%Z → L1.resolve (c1 c) (L2.w_to w) = Some rcv → is_Some (L1.resolve (c1 c) sender) →
+  (1 ≤ bid c)%N → (1 ≤ idx)%N →
+  L1.configs (l1 s) !! bid c = Some x → L1.outputs (l1 s) !! (bid c, idx) = Some o →
+  L1.o_root o = honest_root c (l2 s) lo hi v bh → L1.is_final x e o = true → length bh = 32%nat →
+  (sys_step c s (SClaim e sender idx m lo hi v bh)).2 = true ∨ denom_collision c ∨ Collision (L1.hash (c1 c)).
+Proof. exact c08_drain_claim_binding. Qed.
+
 Print Assumptions C08_solvency_invariant.
 Print Assumptions C08_invariant_step.
 Print Assumptions C08_drain_funded_partial.
 Print Assumptions C08_drain_claim_partial.
+Print Assumptions C08_drain_claim_binding_partial.
